@@ -1365,13 +1365,26 @@ def _snapshot_containers(objs):
                     keep[k] = copy.deepcopy(v)
                 except Exception:       # noqa: containers of uncopyable objects: one level
                     keep[k] = copy.copy(v)
-        snap.append((o, keep))
+        # functools caches (lru_cache / cache) that are EMPTY now can be put back exactly: cleared per path
+        empties = []
+        for k, v in list(vars(o).items()):
+            f = v.fget if isinstance(v, property) else v
+            f = getattr(f, '__func__', f)
+            if hasattr(f, 'cache_clear') and hasattr(f, 'cache_info'):
+                try:
+                    if f.cache_info().currsize == 0:
+                        empties.append(f)
+                except Exception:       # noqa
+                    pass
+        snap.append((o, keep, empties))
     return snap
 
 
 def _restore_containers(snap):
     import copy
-    for o, keep in snap:
+    for o, keep, empties in snap:
+        for f in empties:
+            f.cache_clear()
         for k, v in list(vars(o).items()):
             if isinstance(v, (dict, list, set)) and not k.startswith('__') and k not in keep:
                 try:
